@@ -12,6 +12,7 @@ import (
 	"net"
 	"os"
 	"sort"
+	"strings"
 	"syscall"
 	"time"
 
@@ -229,6 +230,7 @@ func (d *drv) start(t int, init M) {
 		"cfg": M{"ipv": d.ipv, "table": d.table, "defProto": int(unix.RTPROT_BOOT), "devSrc": "",
 			"wl": wlNames, "special": specialNames, "ipip": ipipName, "removeExt": removeExt, "ownBird": ownBird,
 			"allProtos": all, "exclusive": excl, "ct": ct},
+		"wild": b(init["wild"]),
 		"kernel": d.kernel(), "links": d.links(),
 	})
 }
@@ -380,7 +382,16 @@ func (d *drv) random(t int, rnd *rand.Rand) {
 		{"eth1", []int{3, 4}}, {"vxlan.calico", []int{41, 42}}, {"tunl0", []int{51}}}
 	next := map[string]int{}
 	fresh := 100
-	idxReuse := os.Getenv("VERIF_IDXREUSE") == "1"
+	// "wild" histories include the triggers of the three confirmed defects (notes/C17.md): ifindex reuse,
+	// route-listing failures hitting a per-interface resync, contested single-address destinations with
+	// conntrack cleanup on.  A rejection there is classified by the check (tolerance specs); the other
+	// histories keep away from the triggers, so any rejection in them is a new violation.
+	wildShare := 16
+	if os.Getenv("VERIF_TIER") == "thorough" {
+		wildShare = 6
+	}
+	wild := rnd.Intn(wildShare) == 0 || os.Getenv("VERIF_WILD") == "1"
+	idxReuse := wild
 	tables := []int{254, 254, 254, 100}
 	prios := []int{0, 0, 100}
 	if ipv == 6 {
@@ -390,6 +401,7 @@ func (d *drv) random(t int, rnd *rand.Rand) {
 	// a single-address destination is only ever wanted through one fixed (class, interface), and kernel
 	// routes put there by the environment never look like a route Felix would program.
 	ct := rnd.Intn(2) == 0
+	bound := ct && !wild // single-address destinations keep one fixed owner
 	single := func(dst string) bool { return dst[len(dst)-3:] == "/32" || dst[len(dst)-4:] == "/128" }
 	// foreign / stale kernel routes
 	rroute := func(live func(string) int) M {
@@ -411,7 +423,7 @@ func (d *drv) random(t int, rnd *rand.Rand) {
 		}
 		dst := dsts[rnd.Intn(len(dsts))]
 		gw := gws[rnd.Intn(len(gws))]
-		if ct && single(dst) && typ == unix.RTN_UNICAST {
+		if bound && single(dst) && typ == unix.RTN_UNICAST {
 			gw = gws[1][:len(gws[1])-1] + "9"
 		}
 		return M{"table": tables[rnd.Intn(len(tables))], "dst": dst, "prio": prios[rnd.Intn(len(prios))], "tos": 0,
@@ -433,7 +445,7 @@ func (d *drv) random(t int, rnd *rand.Rand) {
 	for i := rnd.Intn(6); i > 0; i-- {
 		routes = append(routes, rroute(live))
 	}
-	d.start(t, M{"ipv": ipv, "table": 0, "removeExt": rnd.Intn(2) == 0, "ownBird": rnd.Intn(2) == 0, "ct": ct, "links": links, "routes": routes})
+	d.start(t, M{"ipv": ipv, "table": 0, "removeExt": rnd.Intn(2) == 0, "ownBird": rnd.Intn(2) == 0, "ct": ct, "wild": wild, "links": links, "routes": routes})
 	classes := []int{0, 3, 4, 7, 8}
 	rtarget := func(ifn string) M {
 		tt := []string{"", "", "vxlan", "global-unicast", "local-unicast", "noencap", "onlink"}[rnd.Intn(7)]
@@ -444,8 +456,14 @@ func (d *drv) random(t int, rnd *rand.Rand) {
 		if ifn == routetable.InterfaceNone {
 			gw = ""
 		}
+		// Felix only asks for routes its own policy recognises: Calico's exclusive protocol (80) anywhere,
+		// the default protocol (0 -> RTPROT_BOOT) only on workload interfaces
+		proto := 80
+		if len(ifn) > 4 && ifn[:4] == "cali" {
+			proto = []int{0, 0, 80}[rnd.Intn(3)]
+		}
 		m := M{"dst": dsts[rnd.Intn(len(dsts)-1)], "prio": prios[rnd.Intn(len(prios))], "tt": tt, "gw": gw, "src": "",
-			"proto": []int{0, 0, 80}[rnd.Intn(3)], "mtu": []int{0, 0, 1400}[rnd.Intn(3)]}
+			"proto": proto, "mtu": []int{0, 0, 1400}[rnd.Intn(3)]}
 		if ipv == 6 && rnd.Intn(3) == 0 {
 			m["prio"] = 0 // normalised to 1024 by the route table
 		}
@@ -467,7 +485,7 @@ func (d *drv) random(t int, rnd *rand.Rand) {
 		ifn := rifn()
 		cls := classes[rnd.Intn(len(classes))]
 		tg := rtarget(ifn)
-		if bd, ok := bind[tracelog.Str(tg["dst"])]; ok && ct {
+		if bd, ok := bind[tracelog.Str(tg["dst"])]; ok && bound {
 			t2 := rtarget(bd.ifn)
 			t2["dst"] = tg["dst"]
 			return bd.cls, bd.ifn, t2
@@ -486,7 +504,7 @@ func (d *drv) random(t int, rnd *rand.Rand) {
 				tg := first
 				if j > 0 {
 					tg = rtarget(ifn)
-					if _, bound := bind[tracelog.Str(tg["dst"])]; bound && ct {
+					if _, isb := bind[tracelog.Str(tg["dst"])]; isb && bound {
 						continue
 					}
 				}
@@ -508,7 +526,7 @@ func (d *drv) random(t int, rnd *rand.Rand) {
 			case 0: // delete
 				d.step(M{"op": "link", "name": u.name, "idx": 0, "up": false, "flush": true})
 				delete(cur, u.name)
-			case 1: // (re)create with the next ifindex (VERIF_IDXREUSE=1: cycle through a small pool, so
+			case 1: // (re)create with the next ifindex (wild histories: cycle through a small pool, so
 				// that an interface can come back with an index it had before - see notes/C17.md)
 				idx := u.idxs[next[u.name]%len(u.idxs)]
 				next[u.name]++
@@ -571,7 +589,7 @@ func (d *drv) random(t int, rnd *rand.Rand) {
 			if connFails > 2 {
 				continue // three connection failures in a row make the handle manager panic by design
 			}
-			if listing && os.Getenv("VERIF_LISTFAIL_PARTIAL") != "1" {
+			if listing && !wild {
 				// a failed route listing is only injected into a FULL resync: a per-interface resync
 				// swallows it (confirmed defect F2, notes/C17.md)
 				d.step(M{"op": "resync"})
@@ -605,6 +623,18 @@ func main() {
 	if err != nil {
 		fmt.Fprintln(os.Stderr, err)
 		os.Exit(2)
+	}
+	// further behaviour files (other generator configurations), replayed after the main one
+	for _, extra := range strings.Split(os.Getenv("VERIF_BEH_EXTRA"), ":") {
+		if extra == "" {
+			continue
+		}
+		more, err := tracelog.LoadBehaviours(extra)
+		if err != nil {
+			fmt.Fprintln(os.Stderr, err)
+			os.Exit(2)
+		}
+		behs = append(behs, more...)
 	}
 	t := 0
 	for _, bh := range behs {
